@@ -1,5 +1,5 @@
 """C04 Checked builds are memory safe, even with the stack exactly full.  Decided by the SphinxRT monitors NoFault,
-FrameInGap, ElemInExtent, Unclassified, AbiWordsSafe, ApFpOrdered in every machine state, by the differential
+FrameInGap, GuardCovers, ElemInExtent, Unclassified, AbiWordsSafe, ApFpOrdered in every machine state, by the differential
 clause on programs without time travel (for every stack size from generous down to below the minimum, the
 observable is the source semantics' or a prefix of it followed by stack_overflow, error) and by the replay of
 Tracker.tla into hidc.codegen.tracker.Tracker."""
